@@ -54,12 +54,12 @@ INJECT_CHILD = {
 }
 # crate-level shared modules (reference semantics, symbolic constructors, native shim)
 INJECT_CRATE = {
-    "chess/src/lib.rs": ["shim.rs", "refspec.rs", "anyboard.rs", "lemmas.rs"],
-    "chess_base/src/lib.rs": ["shim.rs"],
+    "chess/src/lib.rs": ["shim.rs", "refspec.rs", "anyboard.rs", "lemmas.rs", "textutil.rs"],
+    "chess_base/src/lib.rs": ["shim.rs", "textutil.rs"],
 }
 GUARD = "any(kani, owlchess_verif_replay)"
 # harness files that use items of harness files of OTHER modules
-HARNESS_FILE_DEPS = {"board_harness_b.rs": ["zobrist_harness_b.rs", "zobrist_harness.rs"], "board_harness_c.rs": ["zobrist_harness_b.rs", "zobrist_harness.rs"]}
+HARNESS_FILE_DEPS = {"moves_san_harness_b.rs": ["textutil.rs"], "board_harness_d.rs": ["textutil.rs"], "board_harness_b.rs": ["zobrist_harness_b.rs", "zobrist_harness.rs"], "board_harness_c.rs": ["zobrist_harness_b.rs", "zobrist_harness.rs"]}
 
 
 def log(*a):
